@@ -348,7 +348,7 @@ func (e *EtcdOp) WatchPartition(ctx context.Context, filter api.PartitionFilter)
 						if err != nil {
 							log.Warn("fail to unmarshal the partition info",
 								zap.String("key", partitionKey), zap.String("value", util.Base64Encode(event.Kv.Value)), zap.Error(err))
-							if !strings.Contains(info.PartitionName, e.defaultPartitionName) &&
+							if !strings.HasPrefix(info.PartitionName, e.defaultPartitionName) &&
 								event.PrevKv != nil {
 								beforeInfo := &pb.PartitionInfo{}
 								err := proto.Unmarshal(event.PrevKv.Value, info)
@@ -385,7 +385,7 @@ func (e *EtcdOp) WatchPartition(ctx context.Context, filter api.PartitionFilter)
 							continue
 						}
 						if info.State != pb.PartitionState_PartitionCreated ||
-							strings.Contains(info.PartitionName, e.defaultPartitionName) {
+							strings.HasPrefix(info.PartitionName, e.defaultPartitionName) {
 							log.Info("partition state is not created or partition name is default",
 								zap.Int64("collection_id", info.CollectionId),
 								zap.String("partition name", info.PartitionName), zap.Any("state", info.State))
@@ -739,7 +739,7 @@ func (e *EtcdOp) GetAllPartition(ctx context.Context, filter api.PartitionFilter
 			if (info.State != pb.PartitionState_PartitionCreated &&
 				info.State != pb.PartitionState_PartitionDropping &&
 				info.State != pb.PartitionState_PartitionDropped) ||
-				strings.Contains(info.PartitionName, e.defaultPartitionName) {
+				strings.HasPrefix(info.PartitionName, e.defaultPartitionName) {
 				log.Info("partition state is not created/dropped or partition name is default",
 					zap.String("partition_name", info.PartitionName),
 					zap.String("state", info.State.String()))
